@@ -1129,6 +1129,16 @@ var c18FixedScripts = []c18Fixed{
 	{Name: "load-uses-loader-names", Src: "shared = 41\nfunc twice(v) { return v * 2 }\nload(\"lib.ank\")\nprintln(fromlib, defined(\"fromlib\"))\n"},
 	{Name: "load-with-parse-error", Src: "println(\"a\")\nload(\"badlib.ank\")\nprintln(\"never\")\n"},
 	{Name: "defined-own-names", Src: "x = 1\nfunc f() { return 2 }\nvar y = 3\nmodule M { z = 1 }\nprintln(defined(\"x\"), defined(\"f\"), defined(\"y\"), defined(\"M\"), defined(\"nope\"), defined(\"println\"))\nfunc g() { var loc = 1\n return [defined(\"loc\"), defined(\"x\")] }\nprintln(g())\n"},
+	{Name: "deep-recursion-that-succeeds", Src: "func depth(n) {\n  if n == 0 {\n    return 0\n  }\n  return 1 + depth(n - 1)\n}\nprintln(depth(40000), len(args))\n"},
+	{Name: "deep-recursion-then-error", Src: "func depth(n) {\n  if n == 0 {\n    return nosuch\n  }\n  return 1 + depth(n - 1)\n}\nprintln(\"start\")\nprintln(depth(30000))\n"},
+	{Name: "pkg-log-goes-to-stderr", Src: "log = import(\"log\")\nlog.Println(\"progress a\")\nlog.Printf(\"%d\\n\", 5)\nprintln(\"done\", args)\n", Args: true},
+	{Name: "pkg-log-redirected-then-error", Src: "log = import(\"log\")\nos = import(\"os\")\nlog.SetOutput(os.Stderr)\nlog.SetPrefix(\"p: \")\nlog.SetFlags(0)\nprintln(\"start\")\nnosuch()\n"},
+	{Name: "pkg-log-logs-then-error", Src: "log = import(\"log\")\nprintln(\"start\")\nlog.Print(\"about to fail\")\n[1][5]\n"},
+	{Name: "pkg-os-stderr-write", Src: "os = import(\"os\")\nfmt = import(\"fmt\")\nfmt.Fprintln(os.Stderr, \"to stderr\")\nfmt.Fprintln(os.Stdout, \"to stdout\")\nprintln(\"end\")\n"},
+	{Name: "latin1-byte-in-comment", Src: "# caf\xe9 cr\xe8me\nprintln(\"ok\", 1, true)\n"},
+	{Name: "latin1-byte-in-string", Src: "s = \"caf\xe9\"\nprintln(len(s) > 0, \"x\")\n"},
+	{Name: "invalid-utf8-then-error", Src: "# \xff\xfe\nprintln(\"a\")\nnosuch\n"},
+	{Name: "nul-byte-in-comment", Src: "# a\x00b\nprintln(\"after nul\")\n"},
 	{Name: "big-output", Src: "s = \"0123456789abcdefghijklmnopqrstuvwxyz0123456789abcdefghijklmnopqrstuvwxyz\"\nfor i in range(4000) {\n  println(i, s)\n}\n"},
 	{Name: "big-output-then-error", Src: "for i in range(3000) {\n  println(\"line\", i, \"........................................\")\n}\nnosuch\n"},
 	{Name: "args-count", Src: "println(len(args))\n", Args: true},
